@@ -248,3 +248,13 @@ def reorder_glyphs(font: ttLib.TTFont, new_glyph_order: List[str]):
                 reorder_key = (type(value), getattr(value, "Format", None))
                 for reorder in _REORDER_RULES.get(reorder_key, []):
                     reorder.apply(font, value)
+
+    # CFF keeps its own glyph order (charset) and charstrings in that order
+    for tag in ["CFF ", "CFF2"]:
+        if tag in font:
+            top_dict = font[tag].cff.topDictIndex[0]
+            charstrings = top_dict.CharStrings.charStrings
+            top_dict.charset = new_glyph_order
+            top_dict.CharStrings.charStrings = {
+                k: charstrings.get(k) for k in new_glyph_order
+            }
